@@ -209,6 +209,15 @@ func (e *SpecEnv) objValue(obj types.Object) (Value, bool) {
 		}
 		addr := e.u.globalAddr(g)
 		return e.u.loadAt(e.st.View(), addr, derefType(g.Type())), true
+	case *types.Func:
+		// a package-level function used as a VALUE in a specification: the same value the code gets for it
+		sp := e.u.w.prog.Package(o.Pkg())
+		if sp == nil {
+			return nil, false
+		}
+		if f := sp.Func(o.Name()); f != nil {
+			return &ClosureV{Fn: f, ID: e.u.funcID(f)}, true
+		}
 	}
 	return nil, false
 }
